@@ -1070,6 +1070,23 @@ func init() {
 		reg(name, func(fr *frame, a []value) value { return iface{t: digestType, v: &digest{alg: alg}} })
 	}
 
+	// ---------------- direct I/O blocks (ncw/directio): alignment of addresses has no meaning in the model ----------------
+	reg("github.com/ncw/directio.AlignedBlock", func(fr *frame, a []value) value {
+		n := asIndex(fr, a[0])
+		if n < 0 {
+			rtPanic(fr, "makeslice: len out of range")
+		}
+		if n >= 1<<20 {
+			fr.i.px.note("io-buffer-of-1MiB-or-more-scaled-to-4KiB")
+			n = 4096
+		}
+		s := make([]value, n)
+		for i := range s {
+			s[i] = uint8(0)
+		}
+		return s
+	})
+
 	// ---------------- buffer pool (capnp) ----------------
 	const bp = "capnproto.org/go/capnp/v3/exp/bufferpool."
 	reg(bp+"NewPool", func(fr *frame, a []value) value {
